@@ -20,7 +20,7 @@
    configuration), C12_arity_refuted_pinned (deviation D08, repaired). *)
 From Coq Require Import ZArith List String PrimFloat FloatOps.
 From Verif Require Import Base.Result Base.Str Base.Sexp Base.Float Model.NumExpr Spec.Arith
-  Proofs.C12_Eval Proofs.C12_Cmp Proofs.C12_CmpAt Proofs.C12_Multi Proofs.C12_Print Proofs.C12_Main.
+  Proofs.C12_Eval Proofs.C12_Cmp Proofs.C12_CmpAt Proofs.C12_Multi Proofs.C12_Groups Proofs.C12_Print Proofs.C12_Main.
 Import ListNotations.
 Open Scope string_scope.
 
@@ -122,6 +122,15 @@ Theorem C12_assign_order : forall (cfg : ncfg) (st cur : fluents) (effs effs' : 
                 forall k, val_of s1 k = val_of s2 k.
 Proof. exact C12_assign_order_lemma. Qed.
 
+(* ... and whatever the GROUPING: Operator.apply visits the unconditional group, every `when` that fires and every
+   instance of a forall-when one after the other, each evaluated on the previous state and stored into the state
+   being built; with pairwise distinct targets over all of them the successor valuation is the property's
+   (spec_after: targets get v / old+v / old-v read in st, everything else keeps its value). *)
+Theorem C12_assign_groups : forall (cfg : ncfg) (st : fluents) (groups : list (list neff)),
+  NoDup (map neff_key (List.concat groups)) -> rhs_defined st (List.concat groups) ->
+  exists st', apply_groups cfg st groups st = Ok st' /\ forall k, val_of st' k = spec_after st (List.concat groups) k.
+Proof. exact C12_assign_groups_lemma. Qed.
+
 (* Printing, value: the numeral printed for ANY constant v with ANY number of digits reads back EXACTLY (as a
    decimal, in Z) to within half a unit of the last printed digit of v's exact binary value; integers are
    printed exactly; infinities and NaN by name. *)
@@ -148,6 +157,7 @@ Print Assumptions C12_cmp_fixed_at.
 Print Assumptions C12_assign.
 Print Assumptions C12_assign_simultaneous.
 Print Assumptions C12_assign_order.
+Print Assumptions C12_assign_groups.
 Print Assumptions C12_assign_frame.
 Print Assumptions C12_print_value.
 Print Assumptions C12_print_structure.
